@@ -35,6 +35,7 @@ type LExchange struct {
 
 type LSigs struct {
 	Authorities []string // fixture leaf names
+	SCTOnAll    bool     // the SCT list sits on every authority, not only on the first
 	OCSP        []byte
 	SCT         []byte
 	Vouched     []bundle.VouchedSubset
@@ -309,10 +310,16 @@ func DrawBundle(c *core.Ctx, maxEx int, withSigs bool) *LBundle {
 			s.Authorities = append(s.Authorities, fixtures.Leaves[c.Pick("sigs.leaf", len(fixtures.Leaves))].Name)
 		}
 		if na > 0 && c.Bool("sigs.ocsp") {
-			s.OCSP = c.Bytes("sigs.ocspBytes", 1, 40)
+			s.OCSP = append([]byte{}, c.Bytes("sigs.ocspBytes", 0, 40)...) // (present; possibly empty)
 		}
 		if na > 0 && c.Bool("sigs.sct") {
-			s.SCT = c.Bytes("sigs.sctBytes", 1, 40)
+			s.SCT = append([]byte{}, c.Bytes("sigs.sctBytes", 0, 40)...)
+			// (the signatures section is written element by element, without the chain-level
+			// presence rules: an SCT list may sit on every authority)
+			s.SCTOnAll = c.Chance("sigs.sctOnAll", 1, 4)
+		}
+		if len(s.OCSP) == 0 && s.OCSP != nil || len(s.SCT) == 0 && s.SCT != nil {
+			c.Probe("signatures section: authority with a present-but-empty OCSP response / SCT list")
 		}
 		nv := c.Int("sigs.nvouched", 0, 3)
 		for i := 0; i < nv; i++ {
@@ -558,6 +565,8 @@ func (lb *LBundle) ToRepo() *bundle.Bundle {
 			ac := &certurl.AugmentedCertificate{Cert: fixtures.ByName(n).Cert()}
 			if i == 0 {
 				ac.OCSPResponse = lb.Sigs.OCSP
+				ac.SCTList = lb.Sigs.SCT
+			} else if lb.Sigs.SCTOnAll {
 				ac.SCTList = lb.Sigs.SCT
 			}
 			s.Authorities = append(s.Authorities, ac)
